@@ -18,7 +18,13 @@ BUF = ('IFF', 'LIFF', 'RIFF')
 SIG_OP = {'NOT': 0, 'LNOT': 0, 'RNOT': 1, 'IFF': 0, 'LIFF': 0, 'RIFF': 1}
 NEGFAM = space.alphabet('NOT', 'LNOT', 'RNOT', 'AND', 'GT', 'XOR')
 BUFFAM = space.alphabet('IFF', 'LIFF', 'RIFF', 'AND', 'GT', 'XOR')
-ALPHAS = {'FULL': space.FULL, 'FULL_NO3': space.FULL_NO3, 'NEG': NEGFAM, 'BUF': BUFFAM, 'UNARY': c03.UNARY_FAMILY}
+NEG4 = space.alphabet('NOT', 'LNOT', 'RNOT', 'AND', 'GT')
+BUF4 = space.alphabet('IFF', 'LIFF', 'RIFF', 'AND', 'GT')
+CHAIN = space.alphabet('NOT', 'LNOT')
+CHAINB = space.alphabet('IFF', 'RIFF')
+CHAIN1 = space.alphabet('NOT')
+CHAINB1 = space.alphabet('IFF')
+ALPHAS = {'CHAIN1': CHAIN1, 'CHAINB1': CHAINB1, 'CHAIN': CHAIN, 'CHAINB': CHAINB, 'NEG4': NEG4, 'BUF4': BUF4, 'FULL': space.FULL, 'FULL_NO3': space.FULL_NO3, 'NEG': NEGFAM, 'BUF': BUFFAM, 'UNARY': c03.UNARY_FAMILY}
 
 _P = None
 
@@ -76,15 +82,20 @@ def plan(tier):
     fam(2, 2, 'FULL', 1, 'post', 'core')
     fam(2, 2, 'FULL_NO3', 1, 'pipe', 'last')
     fam(3, 1, 'FULL', 1, 'post', 'core')
+    fam(1, 4, 'CHAIN', 2, 'post', 'last')
+    fam(1, 4, 'CHAINB', 2, 'post', 'last')
+    for k in (5, 6, 7):
+        fam(1, k, 'CHAIN1', 2, 'post', 'last')
+        fam(1, k, 'CHAINB1', 2, 'post', 'last')
     fam(2, 3, 'NEG', 2, 'post', 'core' if tier == 'thorough' else 'last')
     fam(2, 3, 'BUF', 2, 'post', 'core' if tier == 'thorough' else 'last')
     if tier == 'thorough':
-        fam(2, 2, 'FULL', 1, 'pipe', 'core')
+        fam(2, 2, 'FULL', 1, 'pipe', 'last2')
         fam(2, 2, 'FULL', 1, 'post', 'all')
         fam(3, 2, 'FULL', 1, 'post', 'core')
         fam(2, 3, 'FULL_NO3', 2, 'post', 'last')
-        fam(2, 4, 'NEG', 2, 'post', 'last')
-        fam(2, 4, 'BUF', 2, 'post', 'last')
+        fam(2, 4, 'NEG4', 2, 'post', 'last')
+        fam(2, 4, 'BUF4', 2, 'post', 'last')
     return t
 
 
@@ -98,10 +109,10 @@ def describe(tier):
         'nestings, cleanup light/heavy) compared with manual sequencing of .transform. distinct = distinct '
         '(pass, result shape) outcomes.',
         'bounds': {
-            'quick': 'post: F(0..2,<=2,FULL), F(3,1,FULL) core policies, NEG/BUF families k=3 (last-gate output); '
+            'quick': 'post: F(0..2,<=2,FULL), F(3,1,FULL) core policies, NEG/BUF families k=3 (last-gate output), negation / buffer chains F(1,4,{NOT,LNOT}), F(1,4,{IFF,RIFF}), F(1,5..7,{NOT}), F(1,5..7,{IFF}); '
             'pipe: F(n,k,FULL) n+k<=3 and F(2,2,FULL without 3-ary) last-gate output',
-            'thorough': '+ post: F(2,2,FULL) all policies, F(3,2,FULL) core, F(2,3,FULL\\S3) last, NEG/BUF k=3 core and k=4 last; '
-            'pipe: F(2,2,FULL) core policies',
+            'thorough': '+ post: F(2,2,FULL) all policies, F(3,2,FULL) core, F(2,3,FULL\\S3) last, NEG/BUF k=3 core and k=4 (5-type alphabets) last; '
+            'pipe: F(2,2,FULL) outputs (last),(last,x0),(x0,last)',
         }[tier],
         'exhaustive': True,
         'assumptions': ['vmc.refmodel evaluator and reachability'],
@@ -257,6 +268,8 @@ def check_circuit(n, gates, acc, mode, pol, fam):
         pols = space.output_policies(n, k, 2, gates=gates)
     elif pol == 'core':
         pols = c03.core_policies(n, k, gates)
+    elif pol == 'last2':
+        pols = [(n + k - 1,), (n + k - 1, 0), (0, n + k - 1)]
     else:
         pols = [(n + k - 1,)] if n + k else [()]
     labs = space.labels(n, k)
